@@ -102,9 +102,9 @@ PROPS = {
         "chain": [chain("genesis", 32, 25, 400, 40)],
         "corpus": ["witness", "regress", "known"],
         "relevant": rel_all,
-        "level_text": "Proof: c15_import_succeeds (for every state of every run with an empty gov module account, export followed by InitChain in the repository's module order - regenerated from app.go - succeeds: the enterprise and stream balance checks pass and every registered invariant asserted by crisis holds; the imported state is given explicitly), c15_enterprise_stream_bank_lossless (bank, streams, fee, grants, allowances identical; enterprise parameters, id counter, every order, both queues rebuilt from statuses, whitelist, locked/spent books, totals observably identical), c15_double_enterprise_import_idempotent, c15_genesis_order, c15_stream_after_crisis_panics (regression witness of the repaired order defect). `..._partial`: the WRKChain/BEACON sections (counters recomputed from the newest 20,000 records) and 'same subsequent transactions have the same effects' are covered by the correspondence only.",
+        "level_text": "Proof: c15_import_succeeds (for every state of every run with an empty gov module account, export followed by InitChain in the repository's module order - regenerated from app.go - succeeds: the enterprise and stream balance checks pass and every registered invariant asserted by crisis holds; the imported state is given explicitly), c15_enterprise_identical (orders are stored by ascending id and the whitelist ascending in every state of every run, so the imported enterprise section is the same value as the exported one, as are bank, streams, fee, grants, allowances and block time), c15_registries_newest (each registry after import: same parameters and id counter, every registration with its metadata, its stored limit, exactly the newest 20,000 records per registration, the two counters recomputed from them), c15_registries_lossless (with at most 20,000 records retained per registration every point read of the imported WRKChain and BEACON sections answers as before: the recomputed counters are the stored ones, WRKChain by ascending heights, BEACON by the contiguous id range), c15_enterprise_stream_bank_lossless, c15_double_enterprise_import_idempotent, c15_genesis_order, c15_stream_after_crisis_panics (regression witness of the repaired order defect), c15_denom_change_breaks_import (negation witness of the known finding). `..._partial`: 'the same subsequent transactions have the same effects on both chains' is proved only in the sense that everything except the two registry sections is the identical value and the registries answer every point read identically; the congruence of the registry operations with respect to that equivalence (the imported registry lists are in canonical instead of insertion order) is covered by the correspondence (the script continues on the imported chain and is compared with the model).",
         "level_note": ENT_NOTE + " Model/Genesis.lean models ExportGenesis/InitGenesis of the four modules, the module manager's order and crisis' invariant assertion. The tie is differential: on generated histories the real app is exported (ExportAppStateAndValidators), a fresh app is InitChain-ed from the export with crisis invariant checking on, all registered invariants are evaluated, the state digest and a second export are compared, and the script continues on the imported chain - all compared with the compiled model. The stream-after-crisis order defect was repaired by a fix: commit; an export taken after coins were sent to the gov module account cannot be imported (SDK gov genesis check) - recorded as a known finding.",
-        "assumptions": ["BooksQ as in C04", "nobody has sent coins to the gov module account (known finding otherwise)", "SDK modules' genesis (auth, bank, authz, feegrant, staking, gov...) is outside the model: compared section by section as JSON by the harness"],
+        "assumptions": ["BooksQ as in C04 (in particular governance has not changed the enterprise denomination: known finding otherwise)", "RegQ as in C07 for the registry statements", "nobody has sent coins to the gov module account (known finding otherwise)", "SDK modules' genesis (auth, bank, authz, feegrant, staking, gov...) is outside the model: compared section by section as JSON by the harness"],
     },
     "C17": {
         "chain": [chain("query", 24, 20, 300, 35), chain("fees", 8, 20, 100, 30)],
